@@ -58,6 +58,8 @@ class PathConfig:
                 continue
             setattr(self, name, value)
 
+        # on a copy: the dictionary belongs to the configuration module, from which another configuration may still be derived
+        self.path_templates = dict(self.path_templates)  # type: ignore
         pattern_replacing(self.path_templates, self.key_patterns)  # type: ignore
 
         # instantiates a resolver if not already in instance cache
